@@ -240,7 +240,7 @@ async fn read_state(dir: &Path, backend: Backend, account_id: &AccountId, passwo
     logs
 }
 
-async fn examine(dir: &Path, backend: Backend, account_id: &AccountId, passwords: &[secrecy::SecretString], s0: &BTreeMap<LogId, Vec<Rec>>, s1: &BTreeMap<LogId, Vec<Rec>>) -> Examined {
+async fn examine(dir: &Path, backend: Backend, account_id: &AccountId, passwords: &[secrecy::SecretString], s0: &BTreeMap<LogId, Vec<Rec>>, s1: &BTreeMap<LogId, Vec<Rec>>, shape: bool) -> Examined {
     let mut problems = vec![];
     // (1) opens
     let mut opened = None;
@@ -272,7 +272,20 @@ async fn examine(dir: &Path, backend: Backend, account_id: &AccountId, passwords
                     (None, None) => true,
                     _ => false,
                 };
-                if !(eq(got, a) || eq(got, b)) {
+                // `shape`: the run that crashed made its own random ids / nonces, so its "after"
+                // is compared with the reference run's by shape: same length, and an extension of
+                // the before state wherever the reference is; a log under an id neither state
+                // knows must look like one of the reference run's new logs
+                let after_like = shape && {
+                    let com = |x: &Vec<Rec>| x.iter().map(|r| r.commit).collect::<Vec<_>>();
+                    match (got, a, b) {
+                        (Some(g), Some(a), Some(b)) => g.len() == b.len() && (!com(b).starts_with(&com(a)) || com(g).starts_with(&com(a))),
+                        (Some(g), None, Some(b)) => g.len() == b.len(),
+                        (Some(g), None, None) => s1.iter().any(|(k, v)| !s0.contains_key(k) && v.len() == g.len()),
+                        _ => false,
+                    }
+                };
+                if !(eq(got, a) || eq(got, b) || after_like) {
                     let n = got.map(|g| g.len());
                     let cls = match (got, a, b) {
                         (Some(g), _, _) if g.is_empty() => "log_emptied",
@@ -333,6 +346,61 @@ async fn examine(dir: &Path, backend: Backend, account_id: &AccountId, passwords
     Examined { problems }
 }
 
+/// Every `*.events` file under a directory.
+fn event_log_files(dir: &Path) -> Vec<PathBuf> {
+    let mut out = vec![];
+    let mut stack = vec![dir.to_path_buf()];
+    while let Some(d) = stack.pop() {
+        if let Ok(rd) = std::fs::read_dir(&d) {
+            for e in rd.flatten() {
+                let p = e.path();
+                if p.is_dir() {
+                    stack.push(p);
+                } else if p.extension().map(|x| x == "events").unwrap_or(false) {
+                    out.push(p);
+                }
+            }
+        }
+    }
+    out.sort();
+    out
+}
+
+/// Run the child under strace restricted to write syscalls on the given files. With
+/// `kill_at = Some(k)` the process is killed (SIGKILL, on entering the syscall) at the
+/// k-th such write: a process death between two writes, with no hook in the code.
+/// Returns (exit code, signal, number of traced writes).
+fn run_child_strace(spec: &Value, files: &[PathBuf], kill_at: Option<usize>) -> (Option<i32>, Option<i32>, usize) {
+    let exe = std::env::current_exe().expect("current exe");
+    let spec_path = PathBuf::from(format!("{}.spec.json", spec["dir"].as_str().unwrap_or("spec")));
+    let trace_path = PathBuf::from(format!("{}.strace", spec["dir"].as_str().unwrap_or("spec")));
+    if std::fs::write(&spec_path, spec.to_string()).is_err() {
+        return (None, None, 0);
+    }
+    let mut cmd = Command::new("strace");
+    cmd.arg("-f").arg("-qq").arg("-o").arg(&trace_path).arg("-e").arg("trace=write,pwrite64,writev");
+    if let Some(k) = kill_at {
+        cmd.arg("-e").arg(format!("inject=write,pwrite64,writev:signal=KILL:when={k}"));
+    }
+    for f in files {
+        cmd.arg("-P").arg(f);
+    }
+    cmd.arg(exe).arg("c13child").arg("--spec-file").arg(&spec_path).env("RUST_BACKTRACE", "0");
+    let out = cmd.output();
+    let _ = std::fs::remove_file(&spec_path);
+    let writes = std::fs::read_to_string(&trace_path).map(|t| t.lines().filter(|l| l.contains("write(") || l.contains("pwrite64(") || l.contains("writev(")).count()).unwrap_or(0);
+    let _ = std::fs::remove_file(&trace_path);
+    match out {
+        Ok(o) => {
+            use std::os::unix::process::ExitStatusExt;
+            // strace exits with 128+signal (or re-raises) when the tracee was killed
+            let sig = o.status.signal().or_else(|| o.status.code().filter(|c| *c > 128).map(|c| c - 128));
+            (o.status.code(), sig, writes)
+        }
+        Err(_) => (None, None, 0),
+    }
+}
+
 fn run_child(spec: &Value) -> (Option<i32>, Option<i32>, String) {
     let exe = std::env::current_exe().expect("current exe");
     // the spec can carry a whole folder log: hand it over in a file next to the work directory
@@ -355,6 +423,7 @@ pub async fn run(args: &Args, rep: &mut Reporter) {
     let mut rng = Rng::new(args.shard_seed() ^ 0xC13);
     let per_op_points = args.by_tier(6usize, 64usize);
     let histories = args.by_tier(1usize, 4usize);
+    let sys_ops: BTreeSet<&str> = ["create", "update", "delete", "move", "rename", "flags", "compact", "change_folder_pw", "merge", "force_merge", "archive", "create_folder"].into_iter().collect();
     for (ci, config) in Config::matrix().iter().enumerate().filter(|(i, _)| i % 2 == 0) {
         let backend = config.backend.name();
         let pdir = args.dir.join(format!("pristine{ci}"));
@@ -570,7 +639,7 @@ pub async fn run(args: &Args, rep: &mut Reporter) {
                     }
                     rep.count("crash_points", 1);
                     rep.count(&format!("crash_at:{name}"), 1);
-                    let ex = examine(&work, config.backend, &account_id, &[password.clone()], &s0, &s1).await;
+                    let ex = examine(&work, config.backend, &account_id, &[password.clone()], &s0, &s1, false).await;
                     let mut hh = Fnv::new();
                     hh.str(backend).str(op).str(&name).u64(nth).u64(spec["seed"].as_u64().unwrap_or(0));
                     rep.case(hh.finish(), true);
@@ -587,6 +656,61 @@ pub async fn run(args: &Args, rep: &mut Reporter) {
                 if rep.counter("samples_taken") < 2 {
                     rep.count("samples_taken", 1);
                     rep.sample(json!({"op": op, "backend": backend, "probe_hits_in_order": order}));
+                }
+
+                // ---- process death before each write to an event log (syscall level, no hook) --------
+                // judged on clauses (1) opens, (2) every log equals before or after, (4) tree == records;
+                // clause (3) at these points is what the probe-based points above already judge
+                if config.backend == Backend::Fs && sys_ops.contains(op) {
+                    let _ = std::fs::remove_dir_all(&work);
+                    if setup::copy_dir(&s0_dir, &work).is_ok() {
+                        let files = event_log_files(&work);
+                        let mut tspec = spec.clone();
+                        tspec["dir"] = json!(work.display().to_string());
+                        let (code, _sig, writes) = run_child_strace(&tspec, &files, None);
+                        if code == Some(0) && writes > 0 {
+                            rep.max(&format!("max:log_writes:{op}"), writes as u64);
+                            let mut ks: Vec<usize> = (1..=writes).collect();
+                            if ks.len() > per_op_points {
+                                rng.shuffle(&mut ks);
+                                ks.truncate(per_op_points);
+                                ks.sort();
+                            }
+                            for k in ks {
+                                let _ = std::fs::remove_dir_all(&work);
+                                if setup::copy_dir(&s0_dir, &work).is_err() {
+                                    continue;
+                                }
+                                let files = event_log_files(&work);
+                                let (_code, sig, _) = run_child_strace(&tspec, &files, Some(k));
+                                if sig != Some(9) {
+                                    rep.count("syscall_kill_not_delivered", 1);
+                                    continue;
+                                }
+                                rep.count("syscall_crash_points", 1);
+                                rep.count(&format!("syscall_crash_points:{op}"), 1);
+                                let ex = examine(&work, config.backend, &account_id, &[password.clone()], &s0, &s1, true).await;
+                                let mut hh = Fnv::new();
+                                hh.str("sys").str(op).u64(k as u64).u64(spec["seed"].as_u64().unwrap_or(0));
+                                rep.case(hh.finish(), true);
+                                let mut lean = spec.clone();
+                                if let Some(o) = lean.as_object_mut() {
+                                    o.remove("remote_records");
+                                }
+                                let ctx = json!({"config": config.name(), "op": lean, "killed_before_log_write": k, "log_writes_in_op": writes, "history_tail": hist_ops});
+                                let judged: BTreeSet<&str> = ex.problems.iter().map(|(c, _)| *c).filter(|c| matches!(*c, "cannot_open" | "log_emptied" | "log_missing" | "log_neither_before_nor_after" | "logs_unreadable" | "tree_differs_from_records" | "log_stream_error")).collect();
+                                for cls in &judged {
+                                    let detail = ex.problems.iter().find(|(c, _)| c == cls).map(|(_, d)| d.clone()).unwrap_or_default();
+                                    rep.violation(&format!("C13:fs:killed_before_log_write:{op}:{cls}"), &format!("process killed on entering write #{k} of {writes} to the event logs during {op}: {detail}"), ctx.clone());
+                                }
+                                if judged.is_empty() {
+                                    rep.count("syscall_crash_points_consistent", 1);
+                                }
+                            }
+                        } else {
+                            rep.count("syscall_discovery_failed", 1);
+                        }
+                    }
                 }
 
                 // ---- torn appends (file system logs) --------------------------------------------------
@@ -625,7 +749,7 @@ pub async fn run(args: &Args, rep: &mut Reporter) {
                                 let _ = f.set_len(l0 + k);
                             }
                             rep.count("torn_appends", 1);
-                            let ex = examine(&work, config.backend, &account_id, &[password.clone()], &s0, &s1).await;
+                            let ex = examine(&work, config.backend, &account_id, &[password.clone()], &s0, &s1, false).await;
                             let mut hh = Fnv::new();
                             hh.str("torn").str(op).str(&rel.display().to_string()).u64(k);
                             rep.case(hh.finish(), true);
